@@ -100,6 +100,8 @@ def for_prop(prop):
 
 CORPUS += [
     # ---------------------------------------------------------------- C05
+    V("C05", "eq-svrp-handover-not-pruned", "rl4co/envs/routing/svrp/env.py", '(td["current_node"] == 0) | (td["current_tech"] == td["techs"].size(-2) - 1)', '(td["current_tech"] == td["techs"].size(-2) - 1)', None),
+    V("C05", "mtvrp-depot-blocked-while-customers", "rl4co/envs/routing/mtvrp/env.py", 'can_visit[:, 0] = ~((curr_node == 0) & (can_visit[:, 1:].sum(-1) > 0))', 'can_visit[:, 0] = ~((curr_node >= 0) & (can_visit[:, 1:].sum(-1) > 0))', 'C05.c'),
     V("C05", "mdcpdp-delivery-closed-at-capacity", "rl4co/envs/routing/mdcpdp/env.py", '            ..., num_depot:pd_split_idx\n        ] &= ~capacity_flag', '            ..., num_depot:\n        ] &= ~capacity_flag', 'C05.e'),
     V("C05", "mdcpdp-final-depot-closed", "rl4co/envs/routing/mdcpdp/env.py", 'action_mask[..., :num_depot].gather(-1, current_depot) | done,', 'action_mask[..., :num_depot].gather(-1, current_depot) & done,', 'C05.e'),
     V("C05", "mdcpdp-depot-closed-when-empty", "rl4co/envs/routing/mdcpdp/env.py", 'carry_flag = current_carry > 0', 'carry_flag = current_carry >= 0', 'C05.e'),
